@@ -971,7 +971,13 @@ struct Search
   bool check_operator_eq(Obj& X, const std::string& kx, Obj& Y, const std::string& opn)
   {
     bool ok = true;
-    const bool same = okey(Y) == kx;
+    bool same = okey(Y) == kx;
+    if(!same)
+    {
+      // numerically equal states (-0 == 0) count as equal for operator==
+      const Lay a = actual(raw_of(X), X.node), b = actual(raw_of(Y), Y.node);
+      same = a.si == b.si && a.ix == b.ix && a.el == b.el;
+    }
     visit(X, [&](auto& x, auto NX)
     {
       constexpr int nx = decltype(NX)::value;
@@ -985,7 +991,7 @@ struct Search
       Index pos = 0;
       if constexpr(NodeT<nx>::fmt == F_BAND) { const Raw ry = raw_of(Y); const Index m = ry.si[1], n = ry.si[2]; bool found = false; for(size_t b = 0; b < ry.ix[0].size() && !found; ++b) for(Index i = 0; i < m && !found; ++i) if(band_valid(m, n, ry.ix[0][b], i)) { pos = Index(b) * m + i; found = true; } if(!found) return; }
       const auto old = e[0][pos];
-      e[0][pos] = old + typename std::remove_reference<decltype(old)>::type(1);
+      e[0][pos] = (old == typename std::remove_const<decltype(old)>::type(0)) ? typename std::remove_const<decltype(old)>::type(1) : -old;   // a value that certainly compares different
       const bool eq2 = (y.mat == x.mat);
       e[0][pos] = old;
       if(eq2) { fail_once(opn + ": operator== still true after a stored value was changed", ""); ok = false; }
